@@ -112,7 +112,6 @@ void ShapeConnectionPin::commonInitForShapeConnection(void)
     }
 
     m_router = m_shape->router();
-    m_shape->addConnectionPin(this);
     
     // Create a visibility vertex for this ShapeConnectionPin.
     VertID id(m_shape->id(), kShapeConnectionPin, 
@@ -131,6 +130,10 @@ void ShapeConnectionPin::commonInitForShapeConnection(void)
     {
         vertexVisibility(m_vertex, nullptr, true, true);
     }
+
+    // Register with the shape last: with transactions off this reroutes the
+    // connectors attached to the shape, which need this pin's vertex.
+    m_shape->addConnectionPin(this);
 }
 
 
